@@ -310,11 +310,20 @@ inductive Outcome
   | raised
 deriving DecidableEq, Repr
 
-/-- a Klong function object: identity (`is`), arity, behaviour of its body on a parameter dictionary -/
+/-- a Klong function object: identity (`is`), `fn.arity` (for a projection such as `f("a";"b";)`: the
+    arity of the underlying function), behaviour of its body on a parameter dictionary, and — for a
+    projection — the number of open slots (`None`s in `fn.args`); 0 for a plain function -/
 structure Fn where
   id : Nat
   arity : Nat
   beh : Params → Outcome
+  openSlots : Nat := 0
+
+/-- `KGFnWrapper._apply`: a projection takes as many arguments as it has open slots -/
+def Fn.callArity (f : Fn) : Nat := if f.openSlots = 0 then f.arity else f.openSlots
+
+/-- the slip of counting the fixed arguments instead of the holes -/
+def Fn.callArityFixedCounted (f : Fn) : Nat := if f.openSlots = 0 then f.arity else f.arity - f.openSlots
 
 /-- a value of the interpreter: a plain KGFn, a KGCall (e.g. a wrapped Python callable), anything else -/
 inductive EVal
@@ -357,7 +366,7 @@ def resolve (env : Env) (w : Wrapped) : Fn :=
 /-- call through the wrapper with one argument: arity mismatch raises before the body runs -/
 def invoke (env : Env) (w : Wrapped) (ps : Params) : List LogEntry × Outcome :=
   let g := resolve env w
-  if g.arity = 1 then ([(g.id, ps)], g.beh ps) else ([], .raised)
+  if g.callArity = 1 then ([(g.id, ps)], g.beh ps) else ([], .raised)
 
 structure Closure where
   fn : Wrapped
@@ -730,7 +739,9 @@ def evalOfJson : JVal → Option EVal
     match j.get? "id", j.get? "arity", j.get? "body" with
     | some i, some a, some b =>
       match i.nat?, a.nat?, bodyOfJson b with
-      | some i, some a, some b => some (.fn ⟨i, a, b.eval⟩)
+      | some i, some a, some b =>
+        some (.fn { id := i, arity := a, beh := b.eval,
+                    openSlots := ((j.get? "open").bind JVal.nat?).getD 0 })
       | _, _, _ => none
     | _, _, _ => none
 
